@@ -143,7 +143,18 @@ class Builder:
 
         with ThreadPoolExecutor(max_workers=JOBS) as ex:
             res = list(ex.map(one, todo))
-        errs = [r for r in res if r]
+        # a compiler killed by memory pressure (other jobs on the machine) is retried, one target at a time
+        failed = [t for t, r in zip(todo, res) if r]
+        errs = []
+        for t in failed:
+            r = None
+            for _ in range(2):
+                time.sleep(2)
+                r = one(t)
+                if r is None:
+                    break
+            if r:
+                errs.append(r)
         if errs:
             for target, out in errs:
                 log("[build] FAILED %s\n%s" % (target, out[-6000:]))
